@@ -10,7 +10,9 @@ import "verif/exech/driver"
 func main() {
 	q := []driver.ProbeConfig{driver.CfgDefault, driver.CfgWorker1, driver.CfgWorker2}
 	t := []driver.ProbeConfig{driver.CfgDefault, driver.CfgWorker1, driver.CfgWorker2, driver.CfgWorker8, driver.CfgFollowSchema}
-	driver.SchedCheck("C05", q, t, map[string]int{"quick": 2, "thorough": 3}, []string{
+	sq := []driver.ProbeConfig{driver.CfgWorker2}
+	st := []driver.ProbeConfig{driver.CfgDefault, driver.CfgWorker1, driver.CfgWorker2}
+	driver.SchedCheck2("C05", q, t, sq, st, map[string]int{"quick": 2, "thorough": 3}, []string{
 		"resolvers return promptly and return ctx.Err() once they observe cancellation (the property's premise)",
 		"\"bounded time\" is decided as \"no schedule in which the request waits forever\"",
 		"net/http is replaced by a recording ResponseWriter; the harness cancels the request context after the handler returns, as net/http does",
